@@ -229,6 +229,10 @@ def check_expansion(ctx):
     else:
         ctx.check(bad is None, R3, f.key + ":formula", f"on all {count} grid points the parts are in [1, max], sum to n and their number equals the multiplicity", f"for n={bad[0]}, max={bad[1]} the expansion gives parts {bad[2]} with multiplicity {bad[3]}: they must lie in [1, max], sum to n and be `multiplicity` many" if bad else "", f)
     ctx.extra["expansion_grid_points"] = count
+    # the conservation law is about integers of any size: a true division inside ceil()/floor()/int() goes through a
+    # double, which rounds for counts beyond 2**53 while the remainder `%` stays exact, so parts and multiplicity disagree
+    fl = [c for c in body_walk(f.node) if isinstance(c, ast.Call) and (dotted(c.func) or "").split(".")[-1] in ("ceil", "floor", "int", "round", "trunc") and c.args and any(isinstance(x, ast.BinOp) and isinstance(x.op, ast.Div) for x in ast.walk(c.args[0]))]
+    ctx.check(not fl, R3, f.key + ":integer-arithmetic", "the number of copies is computed in integer arithmetic", f"`{short(fl[0]) if fl else ''}` rounds a floating-point quotient of two integers: exact only below 2**53, e.g. expand_sample_sizes(['c'], [2**53 + 1], 2**53) returns one copy of 1 sample; use integer division (-(-n // m))", f"{f.module.relpath}:{fl[0].lineno}" if fl else f)
     e = repo.func(f"{IT}:expand_sample_sizes")
     ctx.analysed(e)
     c, s, m = positional_params(e.node)[:3]
